@@ -105,6 +105,28 @@ Qed.
 
 Ltac inv_tac := intros; simpl in *; subst; try tauto; try discriminate; eauto.
 
+(* closes the fields that a step leaves alone or makes vacuous *)
+Ltac std :=
+  simpl; eauto; try tauto; try discriminate;
+  try solve [constructor];
+  try solve [intros; discriminate];
+  try solve [match goal with
+             | HA : forall t, In t (obj _ _) -> In t (g_cl _) -> _ |- forall t, _ -> _ -> _ =>
+               let t := fresh in let H1 := fresh in let H2 := fresh in let F := fresh in
+               intros t H1 H2; destruct (HA t H1 H2) as (F & _); elim F
+             end];
+  try solve [intros _; match goal with
+             | H : (forall e, _ <> MExited e) -> _ |- _ => apply H; intros; discriminate
+             end];
+  try solve [match goal with
+             | HM : forall e, In e (g_mx _) -> _ |- forall e, In e (g_mx _) -> _ =>
+               let e := fresh in let H := fresh in intros e H; specialize (HM e H); discriminate
+             end];
+  try solve [match goal with
+             | HM : forall e, _ = CDone e -> _ |- forall e, _ = CDone e -> _ =>
+               let e := fresh in let H := fresh in intros e H; specialize (HM e H); discriminate
+             end].
+
 Section Steps.
 Variable raises : nat -> bool.
 
@@ -155,29 +177,18 @@ Proof.
   - (* MLoadScan *) cbn [fst snd]; rewrite g_step_noev. apply with_pc_simple; rewrite ?Epc; simpl; auto; try discriminate.
   - (* MGetIter *)
     cbn [fst snd]; rewrite g_step_noev. pose proof (i_ref _ _ I) as Hr. rewrite Epc in Hr. subst r.
-    destruct I. rewrite Epc in *. constructor; simpl; eauto; try tauto; try discriminate.
-    + intros t H1 H2. destruct (i_active0 t H1 H2) as (F & _). elim F.
-    + intros. discriminate.
-    + intros e H. specialize (i_mx0 e H). discriminate.
-    + intros e H. specialize (i_cdone0 e H). discriminate.
+    destruct I. rewrite Epc in *. constructor; std.
   - (* MIterNext *)
     destruct (length (obj (heap s) (m_itref s)) =? m_itused s).
     + destruct (m_todo s) as [|t rest] eqn:Etodo.
       * destruct (m_done s) as [|d0 dr] eqn:Edone.
         -- cbn [fst snd]; rewrite g_step_noev. apply with_pc_simple; rewrite ?Epc; simpl; auto; try discriminate.
         -- cbn [fst snd]; rewrite g_step_noev. destruct I. rewrite Epc, ?Edone in *.
-           constructor; simpl; rewrite ?Edone; eauto; try tauto; try discriminate.
-           ++ intros d Hd. split; [exact Hd|]. apply i_scan_done0; [exact Logic.I|exact Hd].
-           ++ intros t H1 H2. destruct (i_active0 t H1 H2) as (F & _). elim F.
-           ++ intros e H. specialize (i_mx0 e H). discriminate.
-           ++ intros e H. specialize (i_cdone0 e H). discriminate.
+           constructor; simpl; rewrite ?Edone; std.
       * cbn [fst snd]; rewrite g_step_noev. destruct I. rewrite Epc, ?Etodo in *.
-        constructor; simpl; eauto; try tauto; try discriminate.
-        -- intros t0 H1 H2. destruct (i_active0 t0 H1 H2) as (F & _). elim F.
+        constructor; std.
         -- intros _ t0 H. apply i_todo0; [exact Logic.I|right; exact H].
         -- intros t0 E. injection E as <-. apply i_todo0; [exact Logic.I|left; reflexivity].
-        -- intros e H. specialize (i_mx0 e H). discriminate.
-        -- intros e H. specialize (i_cdone0 e H). discriminate.
     + apply mon_exit_inv; rewrite ?Epc; auto; discriminate.
   - (* MIsAlive *)
     destruct (is_alive (regs s t)) eqn:Ea.
@@ -185,14 +196,11 @@ Proof.
     + cbn [fst snd]; rewrite g_step_noev. apply is_alive_false in Ea. destruct I. rewrite Epc in *.
       assert (Hnc : ~ In t (g_cl g)).
       { intros H. destruct (i_active0 t (i_isalive0 t eq_refl) H) as (F & _). elim F. }
-      constructor; simpl; eauto; try tauto; try discriminate.
+      constructor; std.
       * intros d Hd. apply In_ins in Hd. destruct Hd as [->|Hd]; auto.
       * apply asc_ins. assumption.
       * intros d Hd. destruct (i_cbs0 d Hd). split; [apply In_ins; tauto|assumption].
       * intros _ d Hd. apply In_ins in Hd. destruct Hd as [->|Hd]; auto.
-      * intros t0 H1 H2. destruct (i_active0 t0 H1 H2) as (F & _). elim F.
-      * intros e H. specialize (i_mx0 e H). discriminate.
-      * intros e H. specialize (i_cdone0 e H). discriminate.
   - (* MCallback *)
     destruct (m_cbs s) as [|d rest] eqn:Ecbs.
     + cbn [fst snd]; rewrite g_step_noev. apply with_pc_simple; rewrite ?Epc; simpl; auto; try discriminate.
@@ -200,45 +208,34 @@ Proof.
       destruct (i_cbs0 d (or_introl eq_refl)) as (Hdd & Hdc).
       assert (Hnr : ~ In d rest).
       { intros H. pose proof (asc_lt _ _ i_cbs_asc0 _ H). lia. }
-      assert (Hph : cbphase (match rest with [] => MLoadRebuild | _ => MCallback end)) by (destruct rest; exact Logic.I).
       cbn [fst snd]. unfold g_step; simpl.
-      constructor; simpl; eauto; try tauto; try discriminate.
-      * constructor; assumption.
-      * intros t [<-|H]; auto.
-      * intros d' Hd'. destruct (i_cbs0 d' (or_intror Hd')) as (? & ?). split; [assumption|].
-        intros [<-|H1]; tauto.
-      * eapply asc_tail; eassumption.
-      * destruct rest; simpl; tauto.
-      * intros t H1 [<-|H2]; [tauto|]. destruct (i_active0 t H1 H2) as (_ & ? & ?).
-        split; [assumption|]. split; [assumption|]. intros H3. apply H0. right. assumption.
-      * destruct rest; simpl; tauto.
-      * destruct rest; intros; discriminate.
-      * destruct rest; exact Logic.I.
-      * destruct rest; intros; discriminate.
-      * intros Hne. rewrite i_exc0 by (intros; discriminate).
-        destruct (raises d); [rewrite map_app; reflexivity|reflexivity].
-      * destruct rest; intros; discriminate.
-      * intros e H. specialize (i_mx0 e H). discriminate.
-      * intros e H. specialize (i_cdone0 e H). discriminate.
+      constructor; simpl; try solve [destruct rest; std]; try solve [auto].
+      all: try solve [constructor; assumption].
+      all: try solve [intros t [<-|H]; auto].
+      all: try solve [eapply asc_tail; eassumption].
+      all: try solve [intros d' Hd'; destruct (i_cbs0 d' (or_intror Hd')) as (? & ?); split; [assumption|];
+                      intros [<-|H1]; tauto].
+      all: try solve [intros Hne; rewrite i_exc0 by (intros; discriminate);
+                      destruct (raises d); [rewrite map_app; reflexivity|reflexivity]].
+      intros t H1 [<-|H2].
+      * split; [destruct rest; exact Logic.I|tauto].
+      * destruct (i_active0 t H1 H2) as (_ & ? & ?).
+        split; [destruct rest; exact Logic.I|]. split; [assumption|]. intros H3. apply H0. right. assumption.
   - (* MLoadRebuild *) cbn [fst snd]; rewrite g_step_noev. apply with_pc_simple; rewrite ?Epc; simpl; auto; try discriminate.
   - (* MSetDiff *)
     cbn [fst snd]; rewrite g_step_noev. pose proof (i_ref _ _ I) as Hr. rewrite Epc in Hr. subst r.
     destruct I. rewrite Epc in *.
-    constructor; simpl; rewrite ?obj_app_old by assumption; eauto; try tauto; try discriminate.
+    constructor; simpl; rewrite ?obj_app_old by assumption; std.
     + rewrite app_length. simpl. lia.
     + intros n E. injection E as <-. rewrite app_length. simpl. split; [assumption|]. split; [lia|].
       intros t. rewrite obj_app_new. apply In_diff.
-    + intros e H. specialize (i_mx0 e H). discriminate.
-    + intros e H. specialize (i_cdone0 e H). discriminate.
   - (* MStore *)
     cbn [fst snd]; rewrite g_step_noev. destruct I. rewrite Epc in *.
     destruct (i_store0 n eq_refl) as (Hlt & Hlen & Hobj).
-    constructor; simpl; eauto; try tauto; try discriminate.
+    constructor; std.
     + intros t H1 H2. destruct (Hobj t H1) as (Ha & Hnd).
       destruct (i_active0 t Ha H2) as (_ & ? & _). tauto.
     + intros t r E. specialize (i_radd0 t r E). lia.
-    + intros e H. specialize (i_mx0 e H). discriminate.
-    + intros e H. specialize (i_cdone0 e H). discriminate.
   - (* MLoadCheck *) cbn [fst snd]; rewrite g_step_noev. apply with_pc_simple; rewrite ?Epc; simpl; auto; try discriminate.
   - (* MTruth *)
     destruct (obj (heap s) r); cbn [fst snd]; rewrite g_step_noev; apply with_pc_simple; rewrite ?Epc; simpl; auto; try discriminate.
@@ -248,4 +245,108 @@ Proof.
       right. rewrite (i_exc _ _ I); [reflexivity|]. rewrite Epc. discriminate.
     + cbn [fst snd]; rewrite g_step_noev. apply with_pc_simple; rewrite ?Epc; simpl; auto; try discriminate.
   - (* MExited *) exact I.
+Qed.
+
+Lemma set_reg_eq f t v : set_reg f t v t = v.
+Proof. unfold set_reg. rewrite Nat.eqb_refl. reflexivity. Qed.
+Lemma set_reg_neq f t v x : x <> t -> set_reg f t v x = f x.
+Proof. unfold set_reg. intros H. apply Nat.eqb_neq in H. rewrite H. reflexivity. Qed.
+
+(* case analysis on `set_reg f t v x` *)
+Ltac sr x t :=
+  destruct (Nat.eq_dec x t) as [->|?];
+  [rewrite ?set_reg_eq in *|rewrite ?set_reg_neq in * by assumption].
+
+Lemma step_reg_inv g s t :
+  Inv g s -> Inv (g_step g (Step (Reg t)) (snd (step_reg s t))) (fst (step_reg s t)).
+Proof.
+  intros I. unfold step_reg. destruct (regs s t) eqn:Er; try exact I.
+  - (* RLoad: LOAD_ATTR _active *)
+    cbn [fst snd]; rewrite g_step_noev. destruct I. constructor; simpl; eauto.
+    + intros x H. sr x t; [discriminate|auto].
+    + intros x H. sr x t; [discriminate|auto].
+    + intros d H. specialize (i_done_dead0 d H). sr d t; [congruence|auto].
+    + intros x H. specialize (i_cl_dead0 x H). sr x t; [congruence|auto].
+    + intros x r' H. sr x t; [injection H as <-; lia|eauto].
+  - (* RAdd r: CALL add *)
+    cbn [fst snd]. unfold g_step; simpl. destruct I.
+    pose proof (i_radd0 t r Er) as Hr.
+    constructor; simpl; rewrite ?length_upd; eauto.
+    + intros x H. sr x t; [discriminate|]. destruct (i_dead0 x H). auto.
+    + intros x H. sr x t; [auto|]. right. auto.
+    + intros d H. specialize (i_done_dead0 d H). sr d t; [congruence|auto].
+    + intros x H. specialize (i_cl_dead0 x H). sr x t; [congruence|auto].
+    + intros x H1 H2. apply In_obj_add in H1. destruct H1 as [H1|(-> & _)]; [auto|].
+      specialize (i_cl_dead0 t H2). congruence.
+    + intros Hs x H. apply obj_add_mono. auto.
+    + intros x H. apply obj_add_mono. auto.
+    + intros n E. destruct (i_store0 n E) as (H1 & H2 & H3). split; [assumption|]. split; [assumption|].
+      intros x Hx. rewrite obj_upd_other in Hx by lia. destruct (H3 x Hx). split; [apply obj_add_mono|]; assumption.
+    + intros x r' H. sr x t; [discriminate|eauto].
+Qed.
+
+Lemma step_closer_inv g s :
+  Inv g s -> Inv (g_step g (Step Closer) (snd (step_closer s))) (fst (step_closer s)).
+Proof.
+  intros I. unfold step_closer. destruct (closer s) eqn:Ec; try exact I.
+  - cbn [fst snd]; rewrite g_step_noev. destruct I. constructor; simpl; eauto.
+    + intros e H. specialize (i_cr0 e H). congruence.
+    + intros; discriminate.
+  - cbn [fst snd]; rewrite g_step_noev. destruct I. constructor; simpl; eauto.
+    + intros e H. specialize (i_cr0 e H). congruence.
+    + intros; discriminate.
+  - cbn [fst snd]; rewrite g_step_noev. destruct I. constructor; simpl; eauto.
+    + intros e H. specialize (i_cr0 e H). congruence.
+    + intros; discriminate.
+  - destruct (m_pc s) eqn:Epc; cbn [fst snd]; unfold g_step; simpl; destruct I; constructor; simpl; eauto;
+      try (intros e' H; specialize (i_cr0 e' H); congruence); try (intros; discriminate).
+    + intros e' [<-|H]; [reflexivity|]. specialize (i_cr0 e' H). congruence.
+    + intros e' E. injection E as <-. assumption.
+Qed.
+
+Lemma step_inv g s l :
+  Inv g s -> Inv (g_step g l (snd (step raises s l))) (fst (step raises s l)).
+Proof.
+  intros I. destruct l as [t|[| |t]|t|]; simpl.
+  - (* Arrive *)
+    destruct (regs s t) eqn:Er; try exact I. destruct (closer s) eqn:Ec; try exact I.
+    cbn [fst snd]. unfold g_step; simpl. destruct I. constructor; simpl; eauto.
+    + intros x H. sr x t; [discriminate|auto].
+    + intros x H. sr x t; [discriminate|auto].
+    + intros d H. specialize (i_done_dead0 d H). sr d t; [congruence|auto].
+    + intros x H. specialize (i_cl_dead0 x H). sr x t; [congruence|auto].
+    + intros x r' H. sr x t; [discriminate|eauto].
+    + intros e H. specialize (i_cr0 e H). congruence.
+    + intros; discriminate.
+  - apply step_mon_inv; assumption.
+  - apply step_closer_inv; assumption.
+  - apply step_reg_inv; assumption.
+  - (* Die *)
+    destruct (regs s t) eqn:Er; try exact I.
+    cbn [fst snd]. unfold g_step; simpl. destruct I. constructor; simpl; eauto.
+    + intros x H. sr x t; [split; [left; reflexivity|auto]|]. destruct (i_dead0 x H). split; [right|]; assumption.
+    + intros x H. sr x t; [discriminate|auto].
+    + intros d H. specialize (i_done_dead0 d H). sr d t; [reflexivity|auto].
+    + intros x H. specialize (i_cl_dead0 x H). sr x t; [reflexivity|auto].
+    + intros x r' H. sr x t; [discriminate|eauto].
+  - (* CloseCall *)
+    destruct (closer s) eqn:Ec; try exact I.
+    destruct (existsb _ _); [exact I|].
+    cbn [fst snd]. unfold g_step; simpl. destruct I. constructor; simpl; eauto.
+    + intros e H. specialize (i_cr0 e H). congruence.
+    + intros; discriminate.
+Qed.
+
+End Steps.
+
+Lemma grun_inv raises ls : forall g s, Inv g s ->
+  Inv (fst (grun_from raises g s ls)) (snd (grun_from raises g s ls)).
+Proof.
+  induction ls as [|l r IH]; intros g s I; simpl; [exact I|].
+  pose proof (step_inv raises g s l I) as I'. destruct (step raises s l) as [s' o]. apply IH. exact I'.
+Qed.
+
+Theorem Inv_run raises ls : Inv (ghost_of (history raises ls)) (run raises ls).
+Proof.
+  pose proof (grun_inv raises ls g0 init Inv_init) as H. rewrite grun_spec in H. exact H.
 Qed.
